@@ -26,6 +26,7 @@ def finding_key(f, rec_panic=None):
     return '%s:%s:step%s' % (f['template'], f['kind'], f['step'])
 
 def select_templates(prop, tier):
+    if prop == 'C07': return list(catalog.EXPLAIN) if tier == 'quick' else catalog.EXPLAIN + catalog.EXPLAIN_THOROUGH
     if prop == 'C03': return list(catalog.MODEL) if tier == 'quick' else catalog.MODEL + catalog.MODEL_THOROUGH
     ts = catalog.QUICK if tier == 'quick' else catalog.QUICK + catalog.THOROUGH
     def is_rw(t): return any(op[0] in ('ematch', 'mmatch', 'rewrite') for op in t.ops)
@@ -45,7 +46,9 @@ def run(prop, tier, seed=0, extra=None):
     t0 = time.time() - (extra or {}).get('wall_s', 0)
     templates = select_templates(prop, tier)
     tmap = {t.name: t for t in templates}
-    results = runner.explore_all(templates, hash_orders=hash_orders(tier), budget_paths=5000, budget_s=3600 if tier == 'thorough' else 900)
+    feats = ('explanations',) if prop == 'C07' else ()
+    hos = hash_orders(tier) if prop != 'C07' else (('ins',) if tier == 'quick' else ('ins', 'rev'))
+    results = runner.explore_all(templates, features=feats, hash_orders=hos, budget_paths=5000, budget_s=3600 if tier == 'thorough' else 900)
     inconclusive = []; notes = []
     not_covered = []
     for (tn, ho), r in sorted(results.items()):
@@ -56,7 +59,7 @@ def run(prop, tier, seed=0, extra=None):
             # anything else (unsupported construct, executor error) leaves the check inconclusive
             if r.get('reason', '').startswith('Budget'): notes.append(msg)
             else: inconclusive.append(msg)
-    n_valid, mism, nat = runner.validate_native(templates, results)
+    n_valid, mism, nat = runner.validate_native(templates, results, features=feats)
     bad_records = set()
     for cid, d in mism:
         tn, ho, pi, ri = cid.split('|'); bad_records.add((tn, ho, int(pi), int(ri)))
@@ -118,7 +121,7 @@ def run(prop, tier, seed=0, extra=None):
                    'history': tmpl.describe(), 'key': key, 'late': {str(k): v for k, v in (tmpl.late or {}).items()}, 'light': bool(getattr(tmpl, 'light', False)), 'subst_method': getattr(tmpl, 'subst_method', None), 'model': bool(getattr(tmpl, 'model', False))}
         path = common.write_replay(prop, key, payload)
         violations[key] = (key, path, text)
-    if prop in ('C03', 'C01', 'C02', 'C04', 'C05', 'C06', 'C08', 'C09', 'C13', 'C14', 'C15', 'C10'):   # kinds of judge.KIND_PROP
+    if prop in ('C07', 'C03', 'C01', 'C02', 'C04', 'C05', 'C06', 'C08', 'C09', 'C13', 'C14', 'C15', 'C10'):   # kinds of judge.KIND_PROP
         for f in findings:
             if f['prop'] != prop and not (prop == 'C10' and f['kind'] in ('sym_extra', 'sym_missing', 'unsound_eq', 'missing_eq') and f['template'].startswith(('TH', 'TW', 'TORB', 'T4', 'B4', 'B5'))): continue
             rec = rec_index.get((f['template'], f['hash_order'], f['path'], tuple(f['pattern'])))
@@ -186,12 +189,12 @@ def run(prop, tier, seed=0, extra=None):
         for (tn, ho, pi, pat) in rec_index:
             if tn == t.name: pats[pat] += 1
         samples.append({'template': t.name, 'history': t.describe(), 'symbolic_names': t.nnames, 'tied_distinct': t.distinct, 'note': t.note,
-                        'paths': sum(results[(t.name, ho)]['stats'].get('paths', 0) for ho in hash_orders(tier) if results[(t.name, ho)].get('status') == 'ok'),
+                        'paths': sum(r_['stats'].get('paths', 0) for (tn_, ho_), r_ in results.items() if tn_ == t.name and r_.get('status') == 'ok'),
                         'coincidence_patterns_covered': len(pats), 'records': sum(pats.values())})
     cov = {'states': max(paths, 1), 'transitions': max(branches, 1), 'traces_validated_against_impl': n_valid, 'samples': samples,
            'evaluations': records, 'distinct_nontrivial': len({(tn, pat) for (tn, ho, pi, pat) in rec_index}),
            'rule': 'one evaluation = one (path, coincidence pattern) record of a template; distinct = distinct (template, coincidence pattern); every record is non-trivial: it contains at least one insertion',
-           'functions_encoded': fenc, 'library_models': lmod, 'hash_iteration_orders': list(hash_orders(tier)),
+           'functions_encoded': fenc, 'library_models': lmod, 'hash_iteration_orders': list(hos), 'cargo_features': list(feats),
            'solver_time_s': round(sum(r['stats'].get('solver_s', 0) for r in results.values() if r.get('status') == 'ok'), 2),
            'solver_queries': sum(r['stats'].get('solver_queries', 0) for r in results.values() if r.get('status') == 'ok'),
            'cross_record_comparisons': n_cmp, 'obligation_kinds': PROP_KINDS.get(prop, []) or [prop + ' cross-record comparison'],
@@ -256,7 +259,7 @@ def replay(prop, path):
     if p.get('light'): t.light = True
     ok = True
     for prof in ('release', 'dev'):
-        out = native.run_cases(native.case_text('replay', t, p['values'], p.get('f0', F0_DEFAULT), p.get('named_max', NAMED_MAX)), prof)
+        out = native.run_cases(native.case_text('replay', t, p['values'], p.get('f0', F0_DEFAULT), p.get('named_max', NAMED_MAX)), prof, features=(('explanations',) if prop == 'C07' else ()))
         rec = out['replay']; rec['pattern'] = p['pattern']; rec['values'] = p['values']
         fs = [f for f in (judge.judge_model_record if t.model else judge.judge_record)(t, rec) if judge.KIND_PROP.get(f[0]) == prop or prop in ('C11', 'C12')]
         print('replay (%s build): %s names=%s -> %s' % (prof, t.describe(), p['values'], fs[:5] if fs else ('panic: ' + str(rec.get('panic')) if rec.get('panic') else 'no discrepancy with the oracle')))
